@@ -72,3 +72,69 @@ def build_is_syntax_valid(args):
     text = sid + ''.join('*' + vals.get(p, '') for p in range(1, seglen + 1))
     seg = pyx12.segment.Segment(text, '~', '*', '\x1f')
     return (lambda: pyx12.syntax.is_syntax_valid(seg, syn)), (), {'seg_data': seg, 'syn': syn}
+
+
+# ---- bounded native stand-ins (labelled bounded; catch refactorings that leave the verifier's reach) ------
+def bounded_is_syntax_valid(seed, tier):
+    """the contract of is_syntax_valid evaluated natively on the real code: every note kind x position sets of
+    2..3 (quick) / 2..4 (thorough) positions out of 1..4 x every real segment of 0..4 elements whose elements
+    range over {'', 'A', ':B', 'A:B'}"""
+    import itertools
+    import pyx12.segment
+    import pyx12.syntax
+    alphabet = ['', 'A', ':B', 'A:B']
+    sizes = (2, 3) if tier == 'quick' else (2, 3, 4)
+    fails, n = [], 0
+    segs = []
+    for ln in range(0, 5):
+        for vals in itertools.product(alphabet, repeat=ln):
+            segs.append(pyx12.segment.Segment('ZZ' + ''.join('*' + v for v in vals), '~', '*', ':'))
+    for kind in KINDS:
+        for size in sizes:
+            for idxs in itertools.permutations(range(1, 5), size):
+                syn = [kind] + list(idxs)
+                for seg in segs:
+                    n += 1
+                    try:
+                        ok, msg = pyx12.syntax.is_syntax_valid(seg, list(syn))
+                    except Exception as e:
+                        ok, msg = 'raised %s' % type(e).__name__, None
+                    want = not syntax_violated(kind, seg, list(idxs))
+                    if ok != want or (ok is True) != (msg is None):
+                        if len(fails) < 5:
+                            fails.append({'input': {'syn': syn, 'segment': seg.format('~', '*', ':')},
+                                          'detail': 'is_syntax_valid returned %r, the X12 definition of the note gives %r' % ((ok, msg), want)})
+    return {'function': 'pyx12.syntax.is_syntax_valid', 'evaluations': n,
+            'bound': 'kinds PRECL x ordered position sets of size %s out of 1..4 x all segments of 0..4 elements over %r' % (list(sizes), alphabet),
+            'failures': fails}
+
+
+def bounded_split_syntax(seed, tier):
+    """_split_syntax on the real class == parse_note for every kind x 2..6 positions drawn from a seeded sample of
+    two-digit positions, plus every <syntax> text of every shipped map"""
+    import random
+    import pyx12.map_if
+    rnd = random.Random(seed)
+    node = pyx12.map_if.segment_if.__new__(pyx12.map_if.segment_if)
+    texts = set()
+    for kind in KINDS:
+        for n in range(2, MAX_POS + 1):
+            for _ in range(20 if tier == 'quick' else 200):
+                texts.add(kind + ''.join('%02d' % rnd.randint(1, 99) for _ in range(n)))
+    import glob, os, re
+    import pyx12
+    mapdir = os.path.join(os.path.dirname(pyx12.__file__), 'map')
+    for f in sorted(glob.glob(os.path.join(mapdir, '*.xml'))):
+        for m in re.finditer(r'<syntax>\s*([^<]*?)\s*</syntax>', open(f, encoding='utf-8', errors='replace').read()):
+            texts.add(m.group(1))
+    fails = []
+    for t in sorted(texts):
+        try:
+            got = node._split_syntax(t)
+        except Exception as e:
+            got = 'raised %s' % type(e).__name__
+        want = parse_note(t) if re.fullmatch('[PRCLE]([0-9][0-9])*', t) else got
+        if got != want and len(fails) < 5:
+            fails.append({'input': {'syntax': t}, 'detail': '_split_syntax returned %r, expected %r' % (got, want)})
+    return {'function': 'pyx12.map_if.segment_if._split_syntax', 'evaluations': len(texts),
+            'bound': 'seeded notes of 2..6 positions per kind + every <syntax> text of the shipped maps', 'failures': fails}
